@@ -373,11 +373,34 @@ func runC13(tier string) int {
 		e.checkRun(long[i], h)
 	}
 	r.Extra["long_histories"] = len(long)
+	// the process environment is not an argument either: the whole alphabet once under each of a
+	// few different environments (scheduler width, time zone, locale, home, extra variables the
+	// package reads); outcomes must equal the baseline
+	envVariants := [][]string{{"GOMAXPROCS=1"}, {"GOMAXPROCS=8"}, {"TZ=Pacific/Kiritimati"}, {"LANG=tr_TR.UTF-8", "LC_ALL=tr_TR.UTF-8"}, {"HOME=/nonexistent", "USER=nobody"}}
+	for _, name := range envVarsRead() {
+		for _, val := range []string{"1", "true", "/dev/zero"} {
+			envVariants = append(envVariants, []string{name + "=" + val})
+		}
+	}
+	for _, ev := range envVariants {
+		h, err := runHistory(w, e.ops, ev...)
+		if err != nil {
+			die("%v", err)
+		}
+		before := r.ViolationCount
+		e.transitions += int64(len(e.ops))
+		e.checkRun(e.ops, h)
+		if r.ViolationCount > before && len(r.Violations) > 0 {
+			r.Violations[len(r.Violations)-1].What = "with " + strings.Join(ev, " ") + " in the environment: " + r.Violations[len(r.Violations)-1].What
+			r.Violations[len(r.Violations)-1].Case["env"] = ev[0]
+		}
+	}
+	r.Extra["environment_variants"] = len(envVariants)
 	r.States = int64(len(e.states))
 	r.Transitions = e.transitions
 	r.Evaluations = e.transitions
 	r.Distinct = int64(len(e.distinctOut))
-	r.Rule = "explicit-state BFS over call histories: alphabet = 23 operation kinds (valid/invalid validations, the same string under every language, encodings, the same entropy under every language, NewMnemonic over a scripted source swapped in and out, failing source, seeds with shared mnemonic or shared passphrase, a seed whose returned slice the caller then wipes, one caller-owned entropy buffer refilled in place, String); error values returned earlier must keep their text x languages (quick: English, Japanese, Czech, Portuguese + unsupported 10; thorough: all ten + unsupported 10 and -1); every transition is executed in a fresh OS process by replaying the shortest history to the source state and then the operation; state = SHA-256 of a canonical dump of every package-level variable of bip39 and internal/wordlist; search runs to a fixpoint; plus the complete ordered first-use matrix (10x10 ordered language pairs, each followed by valid/invalid validations in all ten languages), plus long histories (every operation 70 times in a row; the whole alphabet twice). Oracle per executed call: outcome (value, error class and text, panic) equals the outcome of the same call in a fresh process; caller buffers and earlier results unchanged at the end of the history. distinct_nontrivial = distinct (operation, outcome) pairs observed"
+	r.Rule = "explicit-state BFS over call histories: alphabet = 23 operation kinds (valid/invalid validations, the same string under every language, encodings, the same entropy under every language, NewMnemonic over a scripted source swapped in and out, failing source, seeds with shared mnemonic or shared passphrase, a seed whose returned slice the caller then wipes, one caller-owned entropy buffer refilled in place, String); error values returned earlier must keep their text x languages (quick: English, Japanese, Czech, Portuguese + unsupported 10; thorough: all ten + unsupported 10 and -1); every transition is executed in a fresh OS process by replaying the shortest history to the source state and then the operation; state = SHA-256 of a canonical dump of every package-level variable of bip39 and internal/wordlist; search runs to a fixpoint; plus the complete ordered first-use matrix (10x10 ordered language pairs, each followed by valid/invalid validations in all ten languages), plus long histories (every operation 70 times in a row; the whole alphabet twice) and the whole alphabet under several process environments (GOMAXPROCS, TZ, locale, HOME, every environment variable the package reads). Oracle per executed call: outcome (value, error class and text, panic) equals the outcome of the same call in a fresh process; caller buffers and earlier results unchanged at the end of the history. distinct_nontrivial = distinct (operation, outcome) pairs observed"
 	r.Extra["operations"] = len(e.ops)
 	r.Extra["first_use_matrix_histories"] = len(matrix)
 	r.Extra["reached_fixpoint"] = r.Exhaustive
